@@ -204,7 +204,11 @@ func genEngineCfg(r *rand.Rand, p genParams) EngineCfg {
 				if r.Intn(6) != 0 {
 					to = ms[r.Intn(len(ms))]
 				}
-				ops = append(ops, ConnOp{Flow: id, From: ms[r.Intn(len(ms))], Act: c.Acts[r.Intn(nActs)], To: to})
+				act := c.Acts[r.Intn(nActs)]
+				if r.Intn(12) == 0 {
+					act = 0 // a connection on the empty action: its own table entry, which no run ever follows
+				}
+				ops = append(ops, ConnOp{Flow: id, From: ms[r.Intn(len(ms))], Act: act, To: to})
 			}
 		}
 		c.Conns = append(c.Conns, ops)
@@ -321,7 +325,12 @@ func keysOfHistory(evs []Event) []skey {
 }
 
 // scriptForGenerated rebuilds the script of a generated scenario from its configuration
-func scriptForGenerated(cfg EngineCfg) *hashScript {
+func scriptForGenerated(cfg EngineCfg) Script {
+	if cfg.GenMode == "longloop" {
+		var rounds int
+		fmt.Sscanf(cfg.GenSeed, "%d", &rounds)
+		return longLoopScript{rounds}
+	}
 	var seed uint64
 	fmt.Sscanf(cfg.GenSeed, "%d", &seed)
 	p := paramsFor(cfg.GenMode)
@@ -339,7 +348,40 @@ func scriptForGenerated(cfg EngineCfg) *hashScript {
 
 // genEngineScenarios produces count base scenarios (and, in the *enum modes, one
 // derived scenario per position of the base execution) and runs them.
+// longLoopCfg: a body (an inner flow around one node) repeated by its parent more than a thousand times until the node
+// says "done": a legitimately long run, with more steps at one flow level than any fixed small bound
+func longLoopCfg(rounds int) EngineCfg {
+	leaf := func() NodeCfg { return NodeCfg{Kind: "leaf", Sty: []string{"-", "-", "-"}, N: 1, Gk: "plain"} }
+	c := EngineCfg{Top: 3, Runs: 1, Acts: []int{1, 2, 3}, Outs: []string{"ok"}, CtxKind: "cancel", GenMode: "longloop", GenSeed: fmt.Sprint(rounds)}
+	c.Nodes = []NodeCfg{leaf(),
+		{Kind: "flow", Retry: true, N: 1, Sty: []string{"-", "-", "-"}, Start: 1, Gk: "flow"},
+		{Kind: "flow", Retry: true, N: 1, Sty: []string{"-", "-", "-"}, Start: 2, Gk: "flow"}}
+	c.Conns = [][]ConnOp{{{3, 2, 2, 2}}}
+	c.Ctx0 = []bool{false}
+	return c
+}
+
+// the script of the long loop: everything succeeds; the third node answers "again" (2) until the last round, then "done" (3)
+type longLoopScript struct{ rounds int }
+
+func (l longLoopScript) Get(k skey) Outcome {
+	o := Outcome{Out: "ok", Act: 1}
+	if k.Phase == "post" && k.Node == 1 {
+		o.Act = 2
+		if k.Visit >= l.rounds {
+			o.Act = 3
+		}
+	}
+	return o
+}
+
 func genEngineScenarios(seed int64, count int, mode string, emit func(cfg EngineCfg, src string, evs []Event)) {
+	if mode == "longloop" {
+		cfg := longLoopCfg(1005)
+		evs, _ := runEngineScenario(cfg, scriptForGenerated(cfg))
+		emit(cfg, "gen:longloop", evs)
+		return
+	}
 	r := rand.New(rand.NewSource(seed))
 	p := paramsFor(mode)
 	for i := 0; i < count && !tooManyHangs(); i++ {
